@@ -312,6 +312,57 @@ impl VxClient {
         ensures r matches Ok(n) ==> vx_xorb_in_store(*hash) && n <= counter_bound()
     { unimplemented!() }
 }
+// ---- the C14 xorb ledger (added 2026-10-04 after fix d6ffad5) ---------------------------------------------------------------
+/// the xorb upload task's view of the store client: ghost ledger of the byte counts `put` has RETURNED to this task.
+/// (Dry-run caveat, U-XORBPUT: a dry-run client's `put` returns the full n while posting nothing; the ledger is about the returned
+/// n, which is what the session reports - outside dry run it is the number of bytes handed to the store.)
+#[verifier::external_body]
+pub struct VxXorbTaskClient { _p: () }
+impl VxXorbTaskClient {
+    pub uninterp spec fn handed(&self) -> int;
+    /// cas_client::UploadClient::put (same contract as `VxClient::put`, plus the ledger)
+    #[verifier::external_body]
+    pub fn put(&mut self, prefix: &str, hash: &MerkleHash, data: Vec<u8>, chunk_and_boundaries: Vec<(MerkleHash, u32)>) -> (r: std::result::Result<usize, CasClientError>)
+        ensures r matches Ok(n) ==> vx_xorb_in_store(*hash) && n <= counter_bound() && final(self).handed() == old(self).handed() + n,
+                r is Err ==> final(self).handed() == old(self).handed(),
+    { unimplemented!() }
+}
+/// the xorb upload task's view of the mutex-held session metrics: ghost total of what THIS task has added to `xorb_bytes_uploaded`.
+/// `lock` hands out the guard as `&mut` (value found arbitrary up to the lock invariant: other tasks may have changed it); whatever
+/// the task does to the field while it holds the guard is booked on its ledger (one critical section = one atomic delta).
+#[verifier::external_body]
+pub struct VxTaskMetrics { _p: () }
+impl VxTaskMetrics {
+    pub uninterp spec fn added(&self) -> int;
+    #[verifier::external_body]
+    fn lock(&mut self) -> (r: &mut DeduplicationMetrics)
+        ensures r.lock_inv(), final(self).added() == old(self).added() + (final(r).xorb_bytes_uploaded - r.xorb_bytes_uploaded),
+    { unimplemented!() }
+}
+impl FileUploadSession {
+    /// sum, over ALL xorb upload tasks this session spawned in its life, of the byte count `put` returned to the task (0 for a task
+    /// whose `put` failed)
+    pub uninterp spec fn vx_xorb_bytes_handed(&self) -> int;
+}
+impl FileUploadSession {
+    /// `self.deduplication_metrics.lock()` in `finalize_impl`, with the state of the session's xorb task set AT THE MOMENT OF THE LOCK
+    /// as ghost arguments (`taken`: the set as taken out of the session, `now`: what is left of it; before the set has been taken both
+    /// are arbitrary).  The guard is `&mut`; the value found is arbitrary up to the lock invariant, except:
+    /// ASSUMED ghost-sum invariant of the mutex-held session metrics (the analogue of `vx_counter_quiescent` for the shard counter):
+    ///  (1) the only writers of `xorb_bytes_uploaded` are the session's xorb upload tasks, and each adds, in total, exactly what `put`
+    ///      returned to it - PROVED for the task body (region `register_new_xorb_for_upload__task`, `/*@C14*/` postcondition
+    ///      added == handed); a task still running has added nothing yet (it adds at its very end);
+    ///  (2) every task the session spawned sits in the session's task set until it is joined, and no task is spawned any more once
+    ///      `finalize_impl` (which consumes the session) has taken the set.
+    /// Hence a value found at a moment when the set taken from the session has been drained to empty (every result Ok) holds the sum
+    /// over ALL spawned tasks.  Nothing is known about a value found while tasks may still be pending.
+    #[verifier::external_body]
+    fn vx_lock_metrics(&self, Ghost(taken): Ghost<Multiset<TaskRes>>, Ghost(now): Ghost<Multiset<TaskRes>>) -> (r: &mut DeduplicationMetrics)
+        ensures r.lock_inv(),
+            (now.len() == 0 && drained_ok(taken, now)) ==> r.xorb_bytes_uploaded as int == self.vx_xorb_bytes_handed(),
+    { unimplemented!() }
+}
+
 /// the shard task's view of the store client: ghost ledger of the bytes it has handed over in accepted uploads
 #[verifier::external_body]
 pub struct VxTaskClient { _p: () }
@@ -512,11 +563,16 @@ impl SessionShardInterface {
 // the body of the xorb upload task spawned by register_new_xorb_for_upload
 //@ extract data/src/file_upload_session.rs in `impl FileUploadSession` region register_new_xorb_for_upload
 //@ block `self.xorb_upload_tasks.lock().await.spawn(async move {`
-//@ sig `fn register_new_xorb_for_upload__task(session: Arc<FileUploadSession>, cas_prefix: String, xorb_hash: MerkleHash, xorb_data: Vec<u8>, chunks_and_boundaries: Vec<(MerkleHash, u32)>, upload_permit: OwnedSemaphorePermit) -> (ret: Result<()>)`
+//@ sig `fn register_new_xorb_for_upload__task(session: Arc<FileUploadSession>, cas_prefix: String, xorb_hash: MerkleHash, xorb_data: Vec<u8>, chunks_and_boundaries: Vec<(MerkleHash, u32)>, upload_permit: OwnedSemaphorePermit, vx_client: &mut VxXorbTaskClient, vx_metrics: &mut VxTaskMetrics) -> (ret: Result<()>)`
+//@ subst `session .client .put(` => `vx_client.put(` :: explicit ghost ledger: the task's view of the store client (books the n that `put` returns); same contract as VxClient::put otherwise
+//@ subst `session.deduplication_metrics.lock()` => `vx_metrics.lock()` :: explicit ghost ledger: the task's view of the mutex-held session metrics (books what the task adds to xorb_bytes_uploaded under the guard)
 //@ contract
         ensures
             /*@C16,C01,C02*/ ret is Ok ==> vx_xorb_in_store(xorb_hash),
-//@ before `session.deduplication_metrics.lock()`
+            // C14: whatever the outcome, the task has added to the session's `xorb_bytes_uploaded` exactly the byte count `put` returned
+            // to it (nothing if `put` failed, nothing twice, nothing before `put` succeeded)
+            /*@C14*/ final(vx_metrics).added() - old(vx_metrics).added() == final(vx_client).handed() - old(vx_client).handed(),
+//@ before `vx_metrics.lock()` #1
             // bytes are counted as uploaded only after a successful put
             assert(/*@C16,C01,C02*/ vx_xorb_in_store(xorb_hash));
 //@ end
@@ -541,15 +597,21 @@ impl FileUploadSession {
 
 //@ extract data/src/file_upload_session.rs in `impl FileUploadSession` fn finalize_impl
 //@ ret ret
+//@ prefix
+#[verifier::exec_allows_no_decreases_clause]
 //@ subst `assert((Arc::strong_count(&self)) == (1));` => `` :: debug-only assertion about the Arc reference count: no ghost state for Arc counts in the technique, not part of C16; dropped and listed as not covered
 //@ subst `prometheus_metrics::FILTER_CAS_BYTES_PRODUCED.inc_by` => `prometheus_metrics::FILTER_CAS_BYTES_PRODUCED().inc_by` :: R6/R11 global prometheus counter (lazy_static) -> stub accessor
 //@ subst `prometheus_metrics::FILTER_BYTES_CLEANED.inc_by` => `prometheus_metrics::FILTER_BYTES_CLEANED().inc_by` :: R6/R11 global prometheus counter (lazy_static) -> stub accessor
+//@ subst `self.deduplication_metrics.lock()` => `self.vx_lock_metrics(Ghost(pend0), Ghost(upload_tasks@))` :: explicit ghost ledger (C14): the lock of the session metrics gets the state of the session's xorb task set at the moment of the lock as ghost arguments; assumed contract of vx_lock_metrics (what is found when that set is drained)
 //@ contract
         ensures
             /*@C16,C01,C02*/ ret is Ok ==> self.shard_interface.vx_xorbs_drained() && self.shard_interface.vx_shards_stored(),
             // the shard figure of the returned metrics is what upload_and_register_session_shards handed to the store
             /*@C14*/ ret matches Ok((m, _)) ==> self.shard_interface.dry_run || self.shard_interface.vx_shard_bytes_handed(m.shard_bytes_uploaded as int),
             /*@C14*/ ret matches Ok((m, _)) ==> m.total_bytes_uploaded == m.shard_bytes_uploaded + m.xorb_bytes_uploaded,
+            // the xorb figure of the returned metrics is the sum of the byte counts `put` returned to ALL the session's upload tasks
+            // (outside dry run: what was handed to the store) - none of them is lost by reading the metrics too early
+            /*@C14*/ ret matches Ok((m, _)) ==> m.xorb_bytes_uploaded as int == self.vx_xorb_bytes_handed(),
 //@ body-start
         // Until the session's task set has been taken out of the mutex its contents are unknown: `upload_tasks` names an
         // arbitrary set here, shadowed by the real one at the `take`.
@@ -558,8 +620,8 @@ impl FileUploadSession {
 //@ after `let mut upload_tasks = take(&mut *self.xorb_upload_tasks.lock());`
         proof { pend0 = upload_tasks@; }
 //@ loop 1
-            invariant /*@C16,C01,C02*/ drained_ok(pend0, upload_tasks@),
-            ensures /*@C16,C01,C02*/ upload_tasks@.len() == 0,
+            invariant /*@C16,C01,C02,C14*/ drained_ok(pend0, upload_tasks@),
+            ensures /*@C16,C01,C02,C14*/ upload_tasks@.len() == 0,
             decreases upload_tasks@.len(),
 //@ before `metrics.shard_bytes_uploaded =`
         // (b) shards are handed to the store only with the xorb task set fully drained and every drained result Ok(Ok(_))
